@@ -176,9 +176,19 @@ def check_copy(c, cp, wr):
             c.check(len(guard) == 1 and n in guard_region(g, guard[0], 'true'), cp, k, 'the keyboard is read only when it is readable', tag='stdin-ready')
             ws = cfg_nodes_with_call(cp, lambda kk: callee_last(kk).endswith('__interact_writen'))
             c.need(len(ws) >= 1, 'no write towards the child found')
+            # `head, sep, tail = v.partition(x)`: head is a prefix of what was read (which prefix is D4's question, and D4 does not
+            # know this form: it gives up rather than guess)
+            heads = set()
+            for m_ in g.nodes:
+                if m_.kind == 'stmt' and isinstance(m_.ast, ast.Assign) and len(m_.ast.targets) == 1 and isinstance(m_.ast.targets[0], (ast.Tuple, ast.List)) \
+                        and len(m_.ast.targets[0].elts) == 3 and isinstance(m_.ast.targets[0].elts[0], ast.Name) and isinstance(m_.ast.value, ast.Call) \
+                        and callee_last(m_.ast.value) == 'partition' and isinstance(m_.ast.value.func, ast.Attribute) and is_name(m_.ast.value.func.value, v):
+                    hn = m_.ast.targets[0].elts[0].id
+                    if sum(1 for x_ in g.nodes if x_.kind == 'stmt' and x_.ast is not None and hn in assigned_names(x_.ast)) == 1:
+                        heads.add(hn)
             for wn, wk in ws:
                 a1 = wk.args[1]
-                as_read = is_name(a1, v) or (isinstance(a1, ast.Subscript) and is_name(a1.value, v) and slice_bounds(a1) is not None
+                as_read = is_name(a1, v) or (isinstance(a1, ast.Name) and a1.id in heads) or (isinstance(a1, ast.Subscript) and is_name(a1.value, v) and slice_bounds(a1) is not None
                                              and slice_bounds(a1)[0] is None and slice_bounds(a1)[2] is None)     # v or the prefix v[:i] (escape branch, checked by D4)
                 c.check(fd_of(wk.args[0], cp) == 'self.child_fd' and as_read, cp, wk, 'keyboard input goes to the child\'s descriptor, as read',
                         witness=norm(wk), kind='flow', tag='stdin-to-child:%d' % ws.index((wn, wk)))
